@@ -460,6 +460,11 @@ func main() {
 	fact("serverLoopShape", fn("cmd/updog/server.go", "server", "Query"), func(b *ast.BlockStmt) bool {
 		return has(b, `for idx, pbq := range req\.Queries \{ q := convert\.ToQuery\(pbq\) qid := pbq\.Id if qid == 0 \{ qid = int32\(idx \+ 1\) \} result, err := s\.idx\.Execute\(q\) if err != nil \{ return nil, err \} pbr := convert\.ToProtobufResult\(result, qid\) resp\.Results = append\(resp\.Results, pbr\) \}`)
 	})
+	fact("serverResponseFresh", fn("cmd/updog/server.go", "server", "Query"), func(b *ast.BlockStmt) bool {
+		// every call builds its own response value and returns it: nothing is shared between requests
+		return len(b.List) >= 3 && has(b.List[0], `^var resp proto\.QueryResponse$`) && has(b.List[len(b.List)-1], `^return &resp, nil$`) &&
+			!has(b, `sync\.Pool|\.Get\(\)|go func`)
+	})
 	fact("convertUsesGetters", fn("internal/convert/convert.go", "", "toExpr"), func(b *ast.BlockStmt) bool {
 		return has(b, `switch v := pbe\.GetValue\(\)\.\(type\)`) && has(b, `toExpr\(v\.Not\.GetExpr\(\)\)`) &&
 			has(b, `range v\.And\.GetExprs\(\)`) && has(b, `range v\.Or\.GetExprs\(\)`) && has(b, `default: return nil`) &&
